@@ -41,6 +41,11 @@ def shards(tier):
                 out.append({'block': b, 'place': p, 'en': e, 'domains': 1})
         for e in ('input', 'other'):
             out.append({'block': b, 'place': 'parent', 'en': e, 'domains': 2})
+        # two distinct ClockDriver objects that carry the same name (a reusable self-gating block instantiated twice)
+        out.append({'block': b, 'place': 'parent', 'en': 'input', 'domains': 2, 'samename': 1})
+        # drivers assigned after a first getSimulator() (the simulator is then re-obtained)
+        out.append({'block': b, 'place': 'parent', 'en': 'input', 'domains': 1, 'late': 1})
+        out.append({'block': b, 'place': 'grand', 'en': 'self', 'domains': 1, 'late': 1})
         if tier == 'thorough':
             out.append({'block': b, 'place': 'parent', 'en': 'input', 'domains': 3})
     return out
@@ -125,10 +130,13 @@ def build(d, gated):
             free.append(x)
             holder = hw if k == 0 else c.prev_g1
             py4hw.Reg(holder, tag + '_enreg', x, en)
-        drv = py4hw.ClockDriver(tag + '_clk', base=hw.clockDriver, enable=en)
+        drv = py4hw.ClockDriver('gclk' if d.get('samename') else tag + '_clk', base=hw.clockDriver, enable=en)
         target = {'self': dut, 'parent': g1, 'grand': g2, 'nested': dut}[d['place']]
         if gated:
-            target.clockDriver = drv
+            if d.get('late'):
+                c.late = getattr(c, 'late', []) + [(target, drv)]
+            else:
+                target.clockDriver = drv
         c.enables[tag] = en
         c.drv_target = target
         if d['place'] == 'nested':
@@ -140,6 +148,13 @@ def build(d, gated):
             c.enables[tag + 'outer'] = en2
         c.prev_g1 = g1
     c.sim = hw.getSimulator()
+    if gated and d.get('late'):
+        # the design was already simulated ungated; now the gated drivers are put in place
+        for leaf in hw.allLeaves():
+            py4hw.getObjectClockDriver(leaf)
+        for target, drv in c.late:
+            target.clockDriver = drv
+        c.sim = hw.getSimulator()
     c.st = core.SysState(hw, free=free)
     return c
 
@@ -244,6 +259,26 @@ def run_shard(d):
             if first is None:
                 first = got
         c.sim.clockDrivers = dict(drvs)
+        if c.problem is None and first is not None:
+            # advancing n cycles in one call must gate each edge on the enable seen before THAT edge
+            for n in (2, 3):
+                st.restore(pre)
+                for w, v in zip(c.free, x):
+                    w.put(v)
+                c.sim.clk(n)
+                a = st.snapshot()
+                st.restore(pre)
+                for w, v in zip(c.free, x):
+                    w.put(v)
+                for _ in range(n):
+                    c.sim.clk(1)
+                b = st.snapshot()
+                res['evaluations'] += 2
+                if a != b:
+                    dw = [(w.getFullPath(), p_, q_) for w, p_, q_ in zip(st.wires, b[0], a[0]) if p_ != q_]
+                    c.problem = {'sigkey': 'clk_n_gating', 'n': n, 'inputs': dict(zip([w.name for w in c.free], x)),
+                                 'wires(n x clk(1), clk(n))': dw[:6]}
+                    break
         if first is not None:
             st.restore(first)
 
